@@ -320,6 +320,7 @@ def float_values(draw, exponent=True):
 QUOTED_ALPHABET = st.one_of(
     st.sampled_from(list("abcXYZ019 _-+.#:,=()[]/%")),
     st.sampled_from(list("\"'\\\n\t")),
+    st.sampled_from(["\x0c", "\x0b", "\x1c", "\x85", "\u2028", "\u2029", "\x7f", "\x01"]),
     st.sampled_from(list("\u00e9\u00f1\u00fc\u00df\u00a0\u00ff\u0100\u03a9\u0434\u05d0\u4e2d\u65e5\u20ac\u2014\u2026\u2603\u2811\ufeff\U0001f600\U0001f30d")),
 )
 
